@@ -266,10 +266,13 @@ CLAIMED = {
              "the parameter type or an explicit range check excludes it, and small_uint<n> really rejects values above "
              "2^n-1 (R0); (R3) the setter changes only the storage of its own field (plus two tabled derived members) "
              "and every getter reading other bits keeps its value; (R4) serialisers assign only the 32 tabled derived fields, "
-             "every other field keeps the value that was set. Option-backed accessors (34) and non-scalar "
+             "every other field keeps the value that was set; (R5) the little- and big-endian declarations of every packed "
+             "header agree on the wire bits of each bit-field of equal name and width (96 fields; found and fixed PPPoE's "
+             "version/type nibbles). Option-backed accessors (34) and non-scalar "
              "parameters (100) are outside this property's scalar-field quantifier and are counted in the evidence.",
-        note="NOT decided: that bit positions are those the protocol specification assigns; the serialisation-diff "
-             "clause beyond 'only the field's own members change'; the big-endian #if arms. Trusted: clang's record "
+        note="NOT decided: that bit positions are those the protocol specification assigns (R5 only makes the two "
+             "declarations agree with each other); the serialisation-diff clause beyond 'only the field's own members change'; "
+             "the accessor code of the big-endian #if arms (their declarations are compared by R5). Trusted: clang's record "
              "layout for x86-64, tools/tinsfacts.cc, vlib/bitprov.py's operator semantics (selftest battery: 17 "
              "mutants / 6 benign variants).",
     ),
